@@ -197,7 +197,7 @@ def run(ctx):
     cov["mc_states"], cov["mc_transitions"], cov["mc_bounds"] = r.distinct, r.generated, dims
     witnesses = {}
     for flip in FLIPS:
-        rf = vlib.tlc("MCCfmm.tla", "mc.cfg", workers=4, timeout=900, heap="4g", tag=PROP + "-mcflip",
+        rf = vlib.tlc("MCCfmm.tla", "mc.cfg", workers=4, timeout=2400, heap="4g", tag=PROP + "-mcflip",
                       cfg_text=MC_CFG % dict(maxr=8, maxs=8, steps=4, flip=flip, inv="NoFreeLunch"))
         if rf.error:
             raise Infra("MCCfmm flip %s: %s" % (flip, rf.error))
